@@ -24,6 +24,7 @@ import (
 	"cosmossdk.io/store/prefix"
 	wasmkeeper "github.com/CosmWasm/wasmd/x/wasm/keeper"
 	sdk "github.com/cosmos/cosmos-sdk/types"
+	"github.com/ethereum/go-ethereum/common"
 	keeperutil "github.com/palomachain/paloma/v2/util/keeper"
 	consensustypes "github.com/palomachain/paloma/v2/x/consensus/types"
 	evmtypes "github.com/palomachain/paloma/v2/x/evm/types"
@@ -40,6 +41,61 @@ var jobNames = map[int]string{0: "Job-Bad", 1: "job-a", 2: "job-b", 3: "job-c"}
 var targets = map[int]string{1: "0x00000000000000000000000000000000000000aa", 2: "0x00000000000000000000000000000000000000bb"}
 var payloads = map[int]string{0: "c3c3c3", 1: "a1a1a1a1", 2: "b2b2b2b2b2"} // 0 = what a caller supplies
 
+// spellings of a hex payload; what a spelled string DENOTES is decided by go-ethereum's common.FromHex (the decoding
+// x/evm uses on HEAD), applied by the driver to the string found in the STORED job record
+var spellings = []string{"bare", "0x", "0X", "odd", "upper", "empty"}
+
+func spell(p int, sp string) string {
+	b := payloads[p]
+	switch sp {
+	case "bare":
+		return b
+	case "0x":
+		return "0x" + b
+	case "0X":
+		return "0X" + b
+	case "odd":
+		return b[1:]
+	case "upper":
+		return strings.ToUpper(b)
+	case "empty":
+		return ""
+	}
+	panic("unknown spelling " + sp)
+}
+
+// unspell recognises which payload id and spelling a stored string is (-1, "?" if none)
+func unspell(s string) (int, string) {
+	if s == "" {
+		return 0, "empty"
+	}
+	for p := range payloads {
+		for _, sp := range spellings {
+			if sp != "empty" && spell(p, sp) == s {
+				return p, sp
+			}
+		}
+	}
+	return -1, "?"
+}
+
+// bytesCode names a byte string: p = the bytes of payload p, 100+p = the bytes its odd spelling denotes,
+// 1000 = no bytes, -1 = anything else
+func bytesCode(b []byte) int {
+	if len(b) == 0 {
+		return 1000
+	}
+	for p := range payloads {
+		if bytes.Equal(b, common.FromHex(payloads[p])) {
+			return p
+		}
+		if bytes.Equal(b, common.FromHex(payloads[p][1:])) {
+			return 100 + p
+		}
+	}
+	return -1
+}
+
 type args struct {
 	Who     int    `json:"who"`
 	As      int    `json:"as"`
@@ -48,6 +104,7 @@ type args struct {
 	Chain   int    `json:"chain"`
 	Target  int    `json:"target"`
 	Payload int    `json:"payload"`
+	Sp      string `json:"sp"`
 	Mod     bool   `json:"mod"`
 	Mev     bool   `json:"mev"`
 	Pg      int    `json:"pg"`
@@ -126,13 +183,13 @@ func revLookup(m map[int]string, v string) int {
 
 func (w *world) jobJSON(a args) (def, pay string) {
 	def = fmt.Sprintf(`{"abi":"[]","address":"%s"}`, targets[a.Target])
-	pay = fmt.Sprintf(`{"hexPayload":"%s"}`, payloads[a.Payload])
+	pay = fmt.Sprintf(`{"hexPayload":"%s"}`, spell(a.Payload, a.Sp))
 	return
 }
 
 func (w *world) projectJob(key string, j *schedulertypes.Job) map[string]any {
 	r := map[string]any{"id": revLookup(jobNames, key), "idf": revLookup(jobNames, j.ID), "owner": w.callerIdx(j.Owner),
-		"chain": revLookup(chainNames, j.Routing.ChainReferenceID), "target": -1, "payload": -1, "mod": j.IsPayloadModifiable, "mev": j.EnforceMEVRelay}
+		"chain": revLookup(chainNames, j.Routing.ChainReferenceID), "target": -1, "payload": -1, "sp": "?", "den": -1, "mod": j.IsPayloadModifiable, "mev": j.EnforceMEVRelay}
 	if key != j.ID {
 		r["idf"] = -3
 	}
@@ -142,7 +199,9 @@ func (w *world) projectJob(key string, j *schedulertypes.Job) map[string]any {
 	}
 	var p evmtypes.JobPayload
 	if json.Unmarshal(j.Payload, &p) == nil {
-		r["payload"] = revLookup(payloads, p.HexPayload)
+		// which document is stored, and which bytes it denotes under the reference decoding
+		r["payload"], r["sp"] = unspell(p.HexPayload)
+		r["den"] = bytesCode(common.FromHex(p.HexPayload))
 	}
 	if j.Routing.ChainType != "evm" {
 		r["chain"] = -4
@@ -203,7 +262,7 @@ func (w *world) observe() map[string]any {
 					r["target"] = revLookup(targets, s.HexContractAddress)
 					p := s.Payload
 					if len(p) >= 32 {
-						r["body"] = revLookup(payloads, hex.EncodeToString(p[:len(p)-32]))
+						r["body"] = bytesCode(p[:len(p)-32])
 						r["blen"] = len(p) - 32
 						r["sfx"] = w.suffixIdx(p[len(p)-32:])
 					} else {
@@ -291,7 +350,7 @@ func (w *world) do(act string, a args) outcome {
 			var p []byte
 			switch a.Pg {
 			case 1:
-				p = []byte(fmt.Sprintf(`{"hexPayload":"%s"}`, payloads[0]))
+				p = []byte(fmt.Sprintf(`{"hexPayload":"%s"}`, spell(0, a.Sp)))
 			case 2:
 				p = []byte("this is not json")
 			}
@@ -343,6 +402,9 @@ func runHistory(t *testing.T, em *drv.Emitter, h drv.History) {
 		var a args
 		if err := json.Unmarshal(st.Args, &a); err != nil {
 			t.Fatal(err)
+		}
+		if a.Sp == "" {
+			a.Sp = "bare"
 		}
 		if (a.Via == "tx") != (a.Who >= 1 && a.Who <= nAcc) || w.addrOf(a.Who) == nil || w.addrOf(a.As) == nil {
 			t.Fatalf("history %d step %d: caller %d via %s as %d", h.H, i+1, a.Who, a.Via, a.As)
